@@ -24,6 +24,7 @@ func vmRead(pid int, addr uintptr, buff []byte) (int, error) {
 	l := len(buff)
 	localIov := getIovecs(&buff[0], l)
 	remoteIov := getIovecs((*byte)(unsafe.Pointer(addr)), l)
+	verifVMRead()
 	n, _, err := processVMReadv(pid, localIov, remoteIov, uintptr(0))
 	if err == 0 {
 		return int(n), nil
